@@ -67,9 +67,9 @@ var routingRef = map[string]string{
 
 func init() {
 	register(&Check{ID: "C12", Run: runC12, Expl: oblig.Explanation{
-		Text: "Static routing/version-selection check: (R1) the routing class of every registered request type, derived from the interfaces it implements in the dispatch order of (*connPool).sendRequest and from the provenance of the Broker value its Broker() method returns, equals the class the property names; (R2) ApiKey.SelectVersion is interpreted over every weak ordering of (our min, our max, broker min, broker max) and must return min(our max, broker max), inside both ranges, whenever the ranges overlap; (R3) the negotiated version flows from SelectVersion(r.MinVersion, r.MaxVersion) into SetVersions and from versions[msg.ApiKey()] into Prepare/WriteRequest/ReadResponse; (R4) the broker id used to pick a connection flows from Broker().ID / the FindCoordinator answer and is used iff >= 0; (R5) metadata is sorted before it is published and looked up by binary search. Not decided: timing (one TTL plus a round trip), histories of leader moves.",
-		Rule: "one obligation per registered request type (R1), per ordering class (R2), per required flow (R3/R4), per sort/search pairing (R5); non-trivial = decided by inspecting at least one instruction",
-		Trusted: []string{"go/types, go/ssa (x/tools v0.29.0)", "routing reference table in internal/rules/c12.go", "backward value-provenance walk (internal/an/flow.go)"},
+		Text:        "Static routing/version-selection check: (R1) the routing class of every registered request type, derived from the interfaces it implements in the dispatch order of (*connPool).sendRequest and from the provenance of the Broker value its Broker() method returns, equals the class the property names; (R2) ApiKey.SelectVersion is interpreted over every weak ordering of (our min, our max, broker min, broker max) and must return min(our max, broker max), inside both ranges, whenever the ranges overlap; (R3) the negotiated version flows from SelectVersion(r.MinVersion, r.MaxVersion) into SetVersions and from versions[msg.ApiKey()] into Prepare/WriteRequest/ReadResponse; (R4) the broker id used to pick a connection flows from Broker().ID / the FindCoordinator answer and is used iff >= 0; (R5) metadata is sorted before it is published and looked up by binary search. Not decided: timing (one TTL plus a round trip), histories of leader moves.",
+		Rule:        "one obligation per registered request type (R1), per ordering class (R2), per required flow (R3/R4), per sort/search pairing (R5); non-trivial = decided by inspecting at least one instruction",
+		Trusted:     []string{"go/types, go/ssa (x/tools v0.29.0)", "routing reference table in internal/rules/c12.go", "backward value-provenance walk (internal/an/flow.go)"},
 		Assumptions: []string{"cluster metadata handed to Broker() is the one published by (*connPool).update", "interface dispatch order is the order of type assertions in sendRequest"},
 	}})
 }
@@ -92,7 +92,7 @@ func registeredMessages(p *load.Program) []regPair {
 	for _, sp := range p.SSA {
 		for _, m := range sp.Members {
 			fn, ok := m.(*ssa.Function)
-			if !ok || !strings.HasPrefix(fn.Name(), "init") {
+			if !ok || !strings.HasPrefix(an.RefFuncName(fn), "init") {
 				continue
 			}
 			an.EachInstr(fn, func(ins ssa.Instruction) {
@@ -163,7 +163,7 @@ func dispatchOrder(fn *ssa.Function) []*ssa.TypeAssert {
 	var tas []*ssa.TypeAssert
 	var req *ssa.Parameter
 	for _, prm := range fn.Params {
-		if prm.Name() == "req" {
+		if an.ParamName(prm) == "req" {
 			req = prm
 		}
 	}
@@ -400,14 +400,14 @@ func c12SelectVersion(p *load.Program, r *oblig.Report) {
 	}
 	atoms := func(v ssa.Value) (string, bool) {
 		if c, ok := v.(*ssa.Call); ok {
-			if f := c.Call.StaticCallee(); f != nil && (f.Name() == "MinVersion" || f.Name() == "MaxVersion") && len(c.Call.Args) == 1 {
+			if f := c.Call.StaticCallee(); f != nil && (an.RefFuncName(f) == "MinVersion" || an.RefFuncName(f) == "MaxVersion") && len(c.Call.Args) == 1 {
 				if _, isP := c.Call.Args[0].(*ssa.Parameter); isP {
-					return "ours." + f.Name(), true
+					return "ours." + an.RefFuncName(f), true
 				}
 			}
 		}
 		if prm, ok := v.(*ssa.Parameter); ok && prm != fn.Params[0] {
-			return prm.Name(), true
+			return an.ParamName(prm), true
 		}
 		return "", false
 	}
@@ -415,7 +415,7 @@ func c12SelectVersion(p *load.Program, r *oblig.Report) {
 		r.Undecided(rule, "SelectVersion signature", p.Pos(fn.Pos()), "expected (k, minVersion, maxVersion)")
 		return
 	}
-	bmin, bmax := fn.Params[1].Name(), fn.Params[2].Name()
+	bmin, bmax := an.ParamName(fn.Params[1]), an.ParamName(fn.Params[2])
 	names := []string{"ours.MinVersion", "ours.MaxVersion", bmin, bmax}
 	bad := 0
 	total, wellFormed, overlapping := 0, 0, 0
@@ -589,7 +589,9 @@ func c12VersionFlow(p *load.Program, r *oblig.Report) {
 			r.Check(allOrigins(os, isNegotiated), rule, "protocol.(*Conn).RoundTrip → RoundTrip(c, apiVersion, …)", p.Pos(c.Pos()), "versions[msg.ApiKey()]", fmt.Sprint(an.OriginStrings(os)))
 			// message identity
 			mo := an.Origins(c.Call.Args[4], an.FlowOpts{})
-			r.Check(allOrigins(mo, func(o an.Origin) bool { return o.Kind == "param" && o.Name == rt.Params[1].Name() && o.Path == "" }), rule, "protocol.(*Conn).RoundTrip → RoundTrip(…, msg) sends the caller's message", p.Pos(c.Pos()), "param msg", fmt.Sprint(an.OriginStrings(mo)))
+			r.Check(allOrigins(mo, func(o an.Origin) bool {
+				return o.Kind == "param" && o.Name == an.ParamName(rt.Params[1]) && o.Path == ""
+			}), rule, "protocol.(*Conn).RoundTrip → RoundTrip(…, msg) sends the caller's message", p.Pos(c.Pos()), "param msg", fmt.Sprint(an.OriginStrings(mo)))
 		}
 	})
 	r.RequireCount(rule+" (uses of the negotiated version in (*Conn).RoundTrip)", n, 2)
@@ -788,7 +790,7 @@ func c12SortSearch(p *load.Program, r *oblig.Report) {
 	usesSearch := false
 	an.EachInstr(find, func(ins ssa.Instruction) {
 		if c, ok := ins.(*ssa.Call); ok {
-			if f := c.Call.StaticCallee(); f != nil && f.Pkg != nil && f.Pkg.Pkg.Path() == "sort" && f.Name() == "Search" {
+			if f := c.Call.StaticCallee(); f != nil && f.Pkg != nil && f.Pkg.Pkg.Path() == "sort" && an.RefFuncName(f) == "Search" {
 				usesSearch = true
 			}
 		}
@@ -808,7 +810,9 @@ func c12SortSearch(p *load.Program, r *oblig.Report) {
 		if c, ok := ins.(*ssa.Call); ok && an.StaticCalleeIs(&c.Call, find) {
 			n++
 			os := an.Origins(c.Call.Args[0], an.FlowOpts{})
-			r.Check(allOrigins(os, func(o an.Origin) bool { return o.Kind == "param" && o.Name == filter.Params[1].Name() && o.Path == ".Topics" }), rule,
+			r.Check(allOrigins(os, func(o an.Origin) bool {
+				return o.Kind == "param" && o.Name == an.ParamName(filter.Params[1]) && o.Path == ".Topics"
+			}), rule,
 				"kafka.filterMetadataResponse → looks names up in the cached (sorted) response", p.Pos(c.Pos()), "res.Topics", fmt.Sprint(an.OriginStrings(os)))
 		}
 	})
@@ -827,7 +831,7 @@ func sortsByField(fn *ssa.Function, field string) bool {
 			return
 		}
 		f := c.Call.StaticCallee()
-		if f == nil || f.Pkg == nil || f.Pkg.Pkg.Path() != "sort" || (f.Name() != "Slice" && f.Name() != "SliceStable") {
+		if f == nil || f.Pkg == nil || f.Pkg.Pkg.Path() != "sort" || (an.RefFuncName(f) != "Slice" && an.RefFuncName(f) != "SliceStable") {
 			return
 		}
 		for _, a := range fn.AnonFuncs {
@@ -908,7 +912,7 @@ func c12Refresher(p *load.Program, r *oblig.Report) {
 			for _, b := range []*ssa.BasicBlock{d} {
 				for _, i2 := range b.Instrs {
 					c2, isC := i2.(*ssa.Call)
-					if !isC || c2.Call.StaticCallee() == nil || c2.Call.StaticCallee().Name() != "Is" {
+					if !isC || c2.Call.StaticCallee() == nil || an.RefFuncName(c2.Call.StaticCallee()) != "Is" {
 						continue
 					}
 					if e, isE := c2.Call.Args[1].(*ssa.Call); isE && e.Call.IsInvoke() && e.Call.Method.Name() == "Err" && e.Call.Value == ssa.Value(ctxParam) {
@@ -919,7 +923,7 @@ func c12Refresher(p *load.Program, r *oblig.Report) {
 				}
 			}
 			// (b) the arm of a select that received from ctx.Done()
-			if bo, isB := iff.Cond.(*ssa.BinOp); isB && bo.Op == token.EQL {
+			if bo, isB := an.CondOf(iff).(*ssa.BinOp); isB && bo.Op == token.EQL {
 				if ex, isEx := bo.X.(*ssa.Extract); isEx {
 					if sel, isSel := ex.Tuple.(*ssa.Select); isSel {
 						if k, isK := an.ConstInt(bo.Y); isK && int(k) < len(sel.States) {
